@@ -356,6 +356,9 @@ class Model:
             return op == "Eq"
         if isinstance(a, (list, dict, set)) and isinstance(b, (list, dict, set)) and op in ("Eq", "NotEq") and (not a) != (not b):
             return op == "NotEq"
+        prim_list = lambda x: isinstance(x, list) and all((isinstance(y, (int, float, str)) or y is None) for y in x)
+        if prim_list(a) and prim_list(b) and op in ("Eq", "NotEq"):
+            return (a == b) if op == "Eq" else (a != b)          # two lists of known plain values
         if op in ("Is", "IsNot") and (a is None or b is None) and (isinstance(a, Ser) or isinstance(b, Ser)):
             return op == "IsNot"          # identity: a Series object is never None (== None would be element-wise)
         if (a is None or b is None) and not isinstance(a, Ser) and not isinstance(b, Ser):
